@@ -12,6 +12,7 @@ import (
 	"os/exec"
 	"path/filepath"
 	"regexp"
+	"runtime"
 	"sort"
 	"strconv"
 	"strings"
@@ -56,6 +57,7 @@ type Program struct {
 	Shape Shape
 	Bins  map[string]string // pkg dir -> test binary
 	Repo  string
+	Trim  bool // built with -trimpath
 }
 
 func RepoPath() string {
@@ -110,6 +112,11 @@ func WriteProgram(root string, sh Shape) error {
 // (e.g. "-trimpath", "-race"); tag distinguishes the output names.
 func Build(root string, sh Shape, tag string, extra ...string) (*Program, error) {
 	p := &Program{Root: root, Shape: sh, Bins: map[string]string{}, Repo: RepoPath()}
+	for _, e := range extra {
+		if e == "-trimpath" {
+			p.Trim = true
+		}
+	}
 	os.MkdirAll(filepath.Join(root, "bin"), 0o755)
 	for _, pk := range sh.Pkgs {
 		out := filepath.Join(root, "bin", strings.ReplaceAll("pkg_"+pk.Dir, "/", "_")+tag+".test")
@@ -211,6 +218,7 @@ type RunResult struct {
 	Post     map[string]vkit.Digest
 	Final    map[string]vkit.Digest // taken by the parent after the child exited
 	CIEnv    []string               // the CI-detection variables the child ran with
+	TrimEnv  []string               // Go variables a -trimpath child ran with
 	CleanOut string
 	Summary  *Summary
 	Summary2 *Summary                     // what the second Clean call printed (CleanTwice)
@@ -250,6 +258,16 @@ func ciEnv(ci bool, scn string) []string {
 	return fl[h%uint64(len(fl))]
 }
 
+// trimEnv: what the environment of a -trimpath test process may look like. `go test
+// -trimpath` leaves GOFLAGS alone, `GOFLAGS=-trimpath go test` passes it on, and GOROOT
+// is exported on many machines (version managers, CI images).
+func trimEnv(scn string) []string {
+	b, _ := os.ReadFile(scn)
+	goroot := runtime.GOROOT()
+	fl := [][]string{nil, nil, {"GOFLAGS=-trimpath"}, {"GOFLAGS=-mod=mod -trimpath"}, {"GOFLAGS=-mod=mod -trimpath", "GOROOT=" + goroot}, {"GOFLAGS=--trimpath -count=1"}, {"GOROOT=" + goroot}}
+	return fl[vkit.Hash("trim-flavour", string(b))%uint64(len(fl))]
+}
+
 // RunChild executes one real test process.
 func (p *Program) RunChild(o RunOpt) *RunResult {
 	res := &RunResult{Opt: o}
@@ -285,6 +303,10 @@ func (p *Program) RunChild(o RunOpt) *RunResult {
 	}
 	cmd.Env = cleanEnv(o, outdir, scn)
 	res.CIEnv = ciEnv(o.CI, scn)
+	if p.Trim {
+		res.TrimEnv = trimEnv(scn)
+		cmd.Env = append(cmd.Env, res.TrimEnv...)
+	}
 	var eb bytes.Buffer
 	cmd.Stdout, cmd.Stderr = &eb, &eb
 	res.Err = cmd.Run()
